@@ -584,7 +584,9 @@ func (env *Env) selector(e *SExpr) Val {
 	if g, ok := ex.L.contracts.GhostFields[e.Name]; ok {
 		comp, ty := env.ghostFieldComp(g)
 		ref := x.t
-		if x.t.sort == "Iface" {
+		if x.lv != nil && x.lv.kind == "struct" {
+			ref = x.lv.ref
+		} else if x.t.sort == "Iface" {
 			ref = app("Ref", "if$ref", x.t)
 		}
 		if ref.sort != "Ref" {
@@ -602,6 +604,21 @@ func (env *Env) fieldOf(x Val, i int) Val {
 	base, isPtr := derefType(x.typ)
 	st := base.Underlying().(*types.Struct)
 	f := st.Field(i)
+	if !isPtr && x.lv != nil && x.lv.kind == "struct" {
+		lv := ex.fieldLV(x.lv, i)
+		if lv.kind == "struct" {
+			return Val{t: ex.load(env.cur, lv), typ: f.Type(), lv: lv}
+		}
+		if lv.kind != "comp" {
+			return Val{t: lv.ref, typ: types.NewPointer(f.Type())}
+		}
+		v := ex.load(env.cur, lv)
+		if isIntType(f.Type()) && !strings.Contains(v.s, "$q") && !ex.rangeInst[v.s] {
+			ex.rangeInst[v.s] = ex.dry == 0
+			ex.assume(tTrue, inRange(v, f.Type()))
+		}
+		return Val{t: v, typ: f.Type()}
+	}
 	if isPtr {
 		var blv *LV
 		if x.lv != nil {
@@ -612,11 +629,20 @@ func (env *Env) fieldOf(x Val, i int) Val {
 			blv = &LV{kind: "struct", ref: x.t, typ: base}
 		}
 		lv := ex.fieldLV(blv, i)
+		if lv.kind == "struct" {
+			// struct-typed field: the struct value, with its location kept for further selection and ghost fields
+			return Val{t: ex.load(env.cur, lv), typ: f.Type(), lv: lv}
+		}
 		if lv.kind != "comp" {
-			// struct- or array-typed field: its address as a pointer value
 			return Val{t: lv.ref, typ: types.NewPointer(f.Type())}
 		}
-		return Val{t: ex.load(env.cur, lv), typ: f.Type()}
+		v := ex.load(env.cur, lv)
+		// every integer stored in the heap is within the range of its Go type (ground instances only)
+		if isIntType(f.Type()) && !strings.Contains(v.s, "$q") && !ex.rangeInst[v.s] {
+			ex.rangeInst[v.s] = ex.dry == 0 // facts emitted during a dry run are discarded with it
+			ex.assume(tTrue, inRange(v, f.Type()))
+		}
+		return Val{t: v, typ: f.Type()}
 	}
 	ss := ex.sorts.sortOf(base)
 	return Val{t: app(ex.sorts.sortOf(f.Type()), ex.sorts.fieldAcc(ss[2:], i, f), x.t), typ: f.Type()}
@@ -658,6 +684,9 @@ func (env *Env) callExpr(e *SExpr) Val {
 			case "as":
 				x := env.eval(e.Args[0])
 				ty := env.resolveType(e.Args[1].typeText())
+				if _, isI := ty.Underlying().(*types.Interface); isI {
+					return Val{t: x.t, typ: ty}
+				}
 				return Val{t: ex.unIface(x.t, ty), typ: ty}
 			case "iface":
 				x := env.eval(e.Args[0])
@@ -693,6 +722,9 @@ func (env *Env) callExpr(e *SExpr) Val {
 			case "add":
 				s, x := env.eval(e.Args[0]), env.eval(e.Args[1])
 				return Val{t: store(s.t, x.t, tTrue)}
+			case "upd":
+				m, k, v := env.eval(e.Args[0]), env.eval(e.Args[1]), env.eval(e.Args[2])
+				return Val{t: store(m.t, k.t, v.t)}
 			case "remove":
 				s, x := env.eval(e.Args[0]), env.eval(e.Args[1])
 				return Val{t: store(s.t, x.t, tFalse)}
@@ -753,6 +785,9 @@ func specText(e *SExpr) string {
 }
 
 func (env *Env) refOf(x Val) T {
+	if x.lv != nil && x.lv.kind == "struct" {
+		return x.lv.ref
+	}
 	switch x.t.sort {
 	case "Ref":
 		return x.t
@@ -809,10 +844,15 @@ func (env *Env) expandPred(p *SpecFunc, e *SExpr) Val {
 		n.vars[pd.Name] = env.eval(e.Args[i])
 	}
 	n.pkgPath = p.PkgPath
-	saved := env.clause
-	r := n.evalBool(p.Body)
-	env.clause = saved
-	return Val{t: r, typ: types.Typ[types.Bool]}
+	n.clause = p.Body
+	if p.Body.Expr == nil {
+		ex2, err := parseSpecExpr(p.Body.Text)
+		if err != nil {
+			env.fail("%v", err)
+		}
+		p.Body.Expr = ex2
+	}
+	return n.eval(p.Body.Expr)
 }
 
 func (env *Env) applySpecFunc(sf *SpecFunc, e *SExpr) Val {
@@ -955,7 +995,7 @@ func (env *Env) pureCall(e *SExpr) (Val, bool) {
 	// instantiate the (assumed or proved) postcondition of the pure function for this application, when the
 	// application contains no bound variable
 	if fc != nil && len(fc.Ensures) > 0 && !strings.Contains(r.s, "$q") && !ex.pureInst[r.s] {
-		ex.pureInst[r.s] = true
+		ex.pureInst[r.s] = ex.dry == 0
 		penv := &Env{ex: ex, fr: env.fr, cur: env.cur, old: env.cur, vars: map[string]Val{"result": {t: r, typ: rt}, "result0": {t: r, typ: rt}}, pkgPath: fc.PkgPath, callerPkg: env.callerPkg}
 		names := []string{}
 		if sig.Recv() != nil {
@@ -1135,7 +1175,7 @@ func (env *Env) havocItem(item string, st *State, reach T) {
 			}
 			if f, ok := obj.(*types.Var); ok && f.IsField() {
 				bt, isPtr := derefType(x.typ)
-				if !isPtr {
+				if !isPtr && !(x.lv != nil && x.lv.kind == "struct") {
 					env.fail("modifies %s: base is not a pointer", item)
 				}
 				var lv *LV
